@@ -97,7 +97,14 @@ func HarnessDispatch() {
 	srv.Register("C", &nsA{c, "C"}) // same Go type as namespace A, other instance
 	regs := []regd{{"A", "Bar", "A.Bar;"}, {"A", "Foo", "A.Foo;"}, {"B", "Foo", "B.Foo;"}, {"B", "Qux", "B.Qux;"}, {"C", "Bar", "C.Bar;"}, {"C", "Foo", "C.Foo;"}}
 	aliases := map[string]string{}
-	switch verif.Choice("alias", 5) {
+	switch verif.Choice("alias", 7) {
+	case 5: // an alias whose target is itself only an alias: aliases are not transitive
+		aliases["old"] = "al"
+		aliases["al"] = f.spec("B", "Foo")
+	case 6: // two aliases of the same target, and one pointing at a name that only exists as an alias key
+		aliases["al"] = f.spec("A", "Foo")
+		aliases["al2"] = f.spec("A", "Foo")
+		aliases["al3"] = "al2"
 	case 1: // alias to existing
 		aliases["al"] = f.spec("B", "Qux")
 	case 2: // alias to missing
